@@ -4,12 +4,13 @@
 // in front of scripted backends; N in {1,16,64} clients; collector gauges, collector global / per-endpoint
 // counters, engine ProxyStats, translator and model collectors are read at quiescence (polled) and, with
 // gated backends that hold every attempt open, mid-flight. Families:
-//   single      all single / pair outcome mixes of C02/C04 (ok, 4xx/5xx answers, refused, reset, closed,
-//               garbage, six mid-response faults, breaker-open) x 2 engines x 3 balancers, one client
-//   concurrent  the same behaviours under 16 / 64 clients, ungated
-//   gated       16 / 64 clients all held inside their first contacted backend: mid-flight read, then release
-//   abort       the client closes its socket after the first body bytes
-//   translator  the Anthropic route (buffered and streaming) with ok / 4xx / 5xx / refused / mid-stream faults
+//
+//	single      all single / pair outcome mixes of C02/C04 (ok, 4xx/5xx answers, refused, reset, closed,
+//	            garbage, six mid-response faults, breaker-open) x 2 engines x 3 balancers, one client
+//	concurrent  the same behaviours under 16 / 64 clients, ungated
+//	gated       16 / 64 clients all held inside their first contacted backend: mid-flight read, then release
+//	abort       the client closes its socket after the first body bytes
+//	translator  the Anthropic route (buffered and streaming) with ok / 4xx / 5xx / refused / mid-stream faults
 package main
 
 import (
@@ -28,6 +29,7 @@ var names = []string{"A", "B", "C"}
 var prios = []int{300, 200, 100}
 
 var answers = []string{"ok", "ok4xx", "ok5xx", "ok099"}
+
 // "dnsfail" (unresolvable endpoint host) needs the host override of package scen; scen19 builds its own stacks, so it is left to C02/C04
 var faults = func() []string {
 	var out []string
@@ -203,6 +205,11 @@ func main() {
 				scs[len(scs)-1].UptimeMin = 6
 				add("gated", engine, bal, []string{"ok"}, 16, true)
 				scs[len(scs)-1].UptimeMin = 61
+				// the endpoints fail a health check and pass the next one while attempts are in flight
+				add("gated", engine, bal, []string{"ok", "ok"}, 8, true)
+				scs[len(scs)-1].Flap = true
+				add("gated", engine, bal, []string{"ok"}, 4, true)
+				scs[len(scs)-1].Flap = true
 				// an endpoint that served traffic, then nothing for more / less than the collector's TTL, is in use
 				// again when the clean-up pass runs
 				for _, idle := range []int{61, 59, 240} {
